@@ -37,6 +37,15 @@ def truthy_role(roles):
             it = roles.facts.items.get(c["key"], {})
             if it.get("output") == "bool" and it.get("inputs") == ["&serde_json::Value"]:
                 cands.append(c["key"])
+    if not cands:
+        # the role is "what `!!` applies to its operand", wherever the call sits: in an adapter the closure hands its
+        # operand list to (`|items| truthiness(items, false)`), or through a function item bound at the forwarding call
+        from . import x_applied
+        for c, _args, _p in x_applied.read(roles.facts, bb).calls():
+            if c.get("local"):
+                it = roles.facts.items.get(c["key"], {})
+                if it.get("output") == "bool" and it.get("inputs") == ["&serde_json::Value"]:
+                    cands.append(c["key"])
     if len(set(cands)) != 1:
         raise Inconclusive("truthiness function not identified from the `!!` operator (%d candidates)" % len(set(cands)))
     return roles.facts.body(cands[0])
@@ -197,6 +206,14 @@ def run(ctx):
         def decided(op):
             b, e = roles.fn_of(op)
             r = strip_refs(b.trace(0))
+            if r[0] == "call" and r[1] and r[1].get("local"):
+                # the result is computed by an adapter that receives the operand list (and a constant flag): read what the
+                # entry returns on its paths with the adapter expanded and its parameters bound (rules/x_applied.py)
+                from . import x_applied, pathsum
+                ap = x_applied.read(facts, b)
+                rs = {pathsum.canon(strip_refs(x)): strip_refs(x) for _p, x in ap.paths if x is not None}
+                if ap.readable and len(rs) == 1:
+                    r = list(rs.values())[0]
             if not (r[0] == "agg" and r[1].get("variant") == "Ok"):
                 return None, b
             v = strip_refs(r[2][0])
